@@ -108,14 +108,19 @@ def step (st : DState) (ws : List String) : DState × String :=
     match mask.toNat? with
     | some m =>
       let s0 := lzmaStrmInit Stream.init
-      let s := { s0 with internal := s0.internal.map fun i => { i with supported := m % 32 } }
+      let s := { s0 with internal := s0.internal.map fun i => { i with supported := i.supported ||| (m % 32) } }
       ({ live := true, strm := s }, fmtNew "new" LZMA_OK s)
     | none => (st, "bad-op new")
-  | ["new", "real", api, _, _, _, _, _] =>
+  | [op, "real", api, _, _, _, _, _] =>
+    if op != "new" && op != "reinit" then (st, "bad-op") else
+    if op == "reinit" && !st.live then (st, "bad-op reinit") else
     match documentedSupported api with
     | some m =>
-      let s := installCoder Stream.init m
-      ({ live := true, real := true, strm := s }, fmtNew "new" LZMA_OK s)
+      -- on a re-initialisation the application resets its four buffer members (the harness replaces the regions)
+      let base := if op == "new" then Stream.init
+                  else { st.strm with nextIn := none, availIn := 0, nextOut := none, availOut := 0 }
+      let s := installCoder base m
+      ({ live := true, real := true, strm := s }, fmtNew op LZMA_OK s)
     | none => (st, "bad-op real")
   | ["end"] => ({ st with strm := lzmaEnd st.strm }, "end")
   | ["progress"] =>
